@@ -102,6 +102,16 @@ To fix this, either add a `./contracts` directory or provide `--path <path_to_co
             String::from("./contracts")
         };
 
+        // verification hook H1 (add-only, compiled only with `--cfg solstat_verif`):
+        // report the resolved options so that checks can observe flag / toml / default precedence.
+        #[cfg(solstat_verif)]
+        if std::env::var("SOLSTAT_VERIF_DUMP_OPTS").is_ok() {
+            eprintln!(
+                "VERIF-OPTS path={:?} optimizations={:?} vulnerabilities={:?} qa={:?}",
+                path, optimizations, vulnerabilities, qa
+            );
+        }
+
         Opts {
             path,
             optimizations,
